@@ -129,7 +129,8 @@ class C10(runner.Check):
   chunk = 40
   probes = ['probe.overwrite', 'probe.algo-write', 'probe.user-write', 'probe.missing-trial-rejected',
             'probe.algo-missing-trial', 'probe.proto-value', 'probe.proto-default-payload', 'probe.proto-overwrites-proto', 'probe.empty-value', 'restart.clean',
-            'probe.ns-roundtrip-checked', 'probe.adversarial-namespace', 'probe.long-lived-handle-read']
+            'probe.ns-roundtrip-checked', 'probe.adversarial-namespace', 'probe.long-lived-handle-read', 'probe.creation-time-metadata', 'probe.completed-through-kept-handle',
+            'probe.kept-trial-handle-read']
 
   def gen(self, rng, idx, tier):
     cfg = {
@@ -137,6 +138,7 @@ class C10(runner.Check):
         'algorithm': rng.choice(['SEQUENCE', 'SEQUENCE', 'SEQUENCE', 'GRID_SEARCH']),
         'space': rng.choice(['int10', 'mixed']), 'epoch': simclock.EPOCH + rng.randrange(10**6),
     }
+    cfg['id_rot'] = rng.randrange(len(O.STUDY_IDS))  # which adversarial id the main study carries
     alpha = rng.choice([ALPHABET, ALPHABET, BENIGN, ['a', 'b'], ['a', 'b', 'a:b']])
     nss = [()]
     for _ in range(rng.choice([1, 2, 3, 4])):
@@ -154,11 +156,25 @@ class C10(runner.Check):
       return out
 
     ss = {'o': 0, 'd': 0}
-    ops = [['CreateStudy', {'o': 0, 'd': 0, 'state': 'ACTIVE'}],
+
+    def creation_md():
+      # metadata supplied at creation time, stored in the order given (NOT sorted, never merged before)
+      its = [dict(i, trial=None) for i in items(False, 0.0)] + [dict(i, trial=None) for i in items(False, 0.0)]
+      rng.shuffle(its)
+      seen, out = set(), []
+      for it in its:
+        k = (tuple(it['ns']), it['key'])
+        if k not in seen:
+          seen.add(k)
+          out.append(it)
+      return out
+
+    ops = [['CreateStudy', {'o': 0, 'd': 0, 'state': 'ACTIVE', 'md': creation_md() if rng.random() < 0.4 else []}],
            ['SuggestTrials', {'study': ss, 'n': rng.choice([1, 2, 3]), 'worker': 0}]]
     n = rng.randrange(4, 21 if tier == 'quick' else 41)
     kinds = (['UserStudyMD'] * 4 + ['UserTrialMD'] * 4 + ['RawMD'] * 4 + ['AlgoWrite'] * 4
-             + ['SuggestTrials'] * 3 + ['CompleteTrial'] * 2 + ['DeleteTrial', 'CreateTrial', 'Reopen', 'StopTrial'])
+             + ['SuggestTrials'] * 3 + ['CompleteTrial'] * 2 + ['ClientComplete'] * 2
+             + ['DeleteTrial', 'CreateTrial', 'CreateTrial', 'Reopen', 'StopTrial'])
     while len(ops) < n:
       k = rng.choice(kinds)
       if k == 'UserStudyMD':
@@ -177,7 +193,10 @@ class C10(runner.Check):
       elif k == 'DeleteTrial':
         ops.append([k, {'study': ss, 'trial': {'pref': rng.choice(['any', 'max']), 'i': rng.randrange(6)}}])
       elif k == 'CreateTrial':
-        ops.append([k, {'study': ss, 'x': rng.randrange(40), 'tkind': rng.choice(['plain', 'succeeded'])}])
+        ops.append([k, {'study': ss, 'x': rng.randrange(40), 'tkind': rng.choice(['plain', 'succeeded']),
+                        'md': creation_md() if rng.random() < 0.5 else []}])
+      elif k == 'ClientComplete':
+        ops.append([k, {'study': ss, 'trial': {'pref': 'active', 'i': rng.randrange(6)}, 'v': rng.randrange(5)}])
       elif k == 'StopTrial':
         ops.append([k, {'study': ss, 'trial': {'pref': 'active', 'i': rng.randrange(6)}}])
       else:
@@ -231,6 +250,17 @@ class C10(runner.Check):
     ns_seen = set()
     overwrite = False
     long_lived = {}
+    handles = {}  # trial id -> clients.Trial kept by "the user" since it completed the trial through it
+
+    def add_md(proto_md, its):
+      for it in its:
+        kv = proto_md.add(key=it['key'], ns=vz.Namespace(tuple(it['ns'])).encode())
+        v = mk_value(it['value'])
+        if isinstance(v, str):
+          kv.value = v
+        else:
+          kv.proto.Pack(v)
+
     for step, op in enumerate(plan['ops']):
       kind = op[0]
       sv = world.sv
@@ -372,6 +402,30 @@ class C10(runner.Check):
             if factory.delivered:
               writers.add('algo')
               res.bump('probe.algo-write')
+      elif kind == 'ClientComplete':
+        tid = O.resolve_trial(op[1]['trial'], main, view)
+        if long_lived.get('sv') is sv and tid in trials_now:
+          try:
+            h = handles.get(tid) or long_lived['study'].get_trial(tid)
+            h.complete(vz.Measurement({'m': float(op[1].get('v', 0))}))
+            handles[tid] = h
+            res.bump('probe.completed-through-kept-handle')
+          except Exception:  # pylint: disable=broad-except
+            pass  # e.g. the trial is not ACTIVE any more: lifecycle is C01's business
+      elif kind in ('CreateStudy', 'CreateTrial') and op[1].get('md'):
+        c = O.resolve(op, view)
+        method, req = O.build_request(c, cfg)
+        its = [dict(it, trial=None) for it in op[1]['md']]
+        add_md(req.study.study_spec.metadata if kind == 'CreateStudy' else req.trial.metadata, its)
+        r = O.call(getattr(sv, method), req)
+        if r[0] == 'ok':
+          res.bump('probe.creation-time-metadata')
+          if kind == 'CreateStudy':
+            if r[1].name == main and not trials_now and main not in view.studies:
+              apply_items(its)
+          else:
+            new_id = int(r[1].id)
+            apply_items([dict(it, trial=new_id) for it in its])
       else:
         c = O.resolve(op, view)
         calls0 = factory.calls
@@ -419,6 +473,21 @@ class C10(runner.Check):
             break
       except Exception as e:  # pylint: disable=broad-except
         viol.append(('trial-metadata-unreadable', f'{type(e).__name__}: {str(e)[:150]}'))
+      if long_lived.get('sv') is not sv:
+        handles = {}
+      for tid, h in sorted(handles.items()):
+        if tid not in model_trials and tid not in trials_now:
+          continue
+        try:
+          got = md_to_dict(h.materialize().metadata)
+        except Exception:  # pylint: disable=broad-except
+          handles.pop(tid, None)  # deleted meanwhile
+          continue
+        res.bump('probe.kept-trial-handle-read')
+        exp = model_trials.get(tid, {})
+        if got != exp and not viol:
+          c2, d2 = self._md_diff(f'trial {tid} through the handle that completed it', got, exp)
+          viol.append(('kept-trial-handle:' + c2, d2))
       if viol:
         seen = set()
         for clause, detail in viol:
